@@ -121,7 +121,7 @@ func checkError(obs gqlgen.Observed, fs []gqlgen.RefFailure, md gqlgen.Modes, qn
 	}
 	return "wrong-error-path", fmt.Sprintf("got path %v (%q); failures with this cause: %s", obs.Path, obs.Full, js(sameCause))
 pathok:
-	if obs.Class == "err" || obs.Class == "wrapsafe" {
+	if obs.Class == "err" || obs.Class == "wrapsafe" || obs.Class == "cancelwrap" {
 		segs := obs.Path
 		if qname != "" {
 			segs = append([]string{qname}, segs...)
@@ -138,7 +138,7 @@ func main() {
 	log.SetOutput(ioutil.Discard)
 	o := vh.ParseFlags()
 	run := vh.NewRun("C16", o)
-	run.Rule = "as C01 with 0-25% of resolver results failing (error / SafeError / WrapAsSafeError / ordinary error wrapping a safe one with %w / user-defined SanitizedError with a public text other than its Error() text / panic) under 2 execution-mode assignments x (scripted, FIFO, LIFO, goroutines) plus one subscribe over a fake JSONSocket; non-trivial = at least one needed resolver fails and the scripted run executed at least 3 work units, or at least two needed resolvers fail; distinct by query text + data + modes"
+	run.Rule = "as C01 with 0-25% of resolver results failing (error / SafeError / WrapAsSafeError / ordinary error wrapping a safe one with %w / user-defined SanitizedError with a public text other than its Error() text / ordinary error wrapping context.Canceled or DeadlineExceeded / panic), one POST to the HTTP handler under 2 execution-mode assignments x (scripted, FIFO, LIFO, goroutines) plus one subscribe over a fake JSONSocket; non-trivial = at least one needed resolver fails and the scripted run executed at least 3 work units, or at least two needed resolvers fail; distinct by query text + data + modes"
 	r := vh.NewRng(o.Seed)
 
 	var cases []*gqlgen.Case
@@ -190,6 +190,7 @@ func main() {
 		start = end
 	}
 
+	wsHangs := 0
 	for idx, c := range cases {
 		run.LogCase(idx, c)
 		q := c.Query
@@ -275,6 +276,11 @@ func main() {
 				break
 			}
 			if mi == 0 {
+				// the same over HTTP: a failing resolver always yields an error response, and no data
+				hr := gqlgen.HTTPPost(b, text, q.Vars, &gqlgen.Scripted{})
+				checkHTTP(hr, ref.Failures, failing, refJSON, fail)
+			}
+			if mi == 0 && wsHangs < 3 {
 				// websocket clause
 				var ch2 []int
 				if len(c.Choices) > 2 {
@@ -282,6 +288,9 @@ func main() {
 				}
 				ws = gqlgen.Subscribe(b, text, q.Vars, &gqlgen.Scripted{Choices: ch2})
 				haveWS = true
+				if ws.TimedOut {
+					wsHangs++
+				}
 				checkWS(ws, ref.Failures, failing, fail)
 			}
 		}
@@ -290,7 +299,7 @@ func main() {
 		}
 		run.Hist(fmt.Sprintf("needed-failures:%d", min(len(ref.Failures), 4)))
 		for _, f := range ref.Failures {
-			if f.AfterNil && (f.Kind == "err" || f.Kind == "panic" || f.Kind == "wrapsafe") {
+			if f.AfterNil && (f.Kind == "err" || f.Kind == "panic" || f.Kind == "wrapsafe" || f.Kind == "cancelwrap") {
 				run.Hist("unsafe-failure-after-nil-list-entry")
 				break
 			}
@@ -316,6 +325,10 @@ func main() {
 // checkWS evaluates clause (iv): only safe messages verbatim, everything else the generic message;
 // an initially failing subscription is reported once and then closed.
 func checkWS(ws gqlgen.WSResult, fs []gqlgen.RefFailure, failing bool, fail func(sig, detail string)) {
+	if ws.TimedOut && failing && len(ws.Envelopes) == 0 {
+		fail("ws-failing-subscription-not-reported", "no envelope at all for a subscription whose first computation fails; needed failures "+js(fs))
+		return
+	}
 	if ws.TimedOut {
 		fail("ws-timeout", js(ws))
 		return
@@ -372,7 +385,7 @@ func checkWS(ws gqlgen.WSResult, fs []gqlgen.RefFailure, failing bool, fail func
 		if f.Kind == "custom" && msg == "public "+f.Msg {
 			ok = true
 		}
-		if (f.Kind == "err" || f.Kind == "panic" || f.Kind == "wrapsafe") && msg == generic {
+		if (f.Kind == "err" || f.Kind == "panic" || f.Kind == "wrapsafe" || f.Kind == "cancelwrap") && msg == generic {
 			ok = true
 		}
 	}
@@ -389,6 +402,35 @@ func checkWS(ws gqlgen.WSResult, fs []gqlgen.RefFailure, failing bool, fail func
 			fail("ws-failed-subscription-not-closed", "same id refused: "+js(ws.Resubscribe))
 		}
 	}
+}
+
+// checkHTTP: over HTTP a failing resolver yields an error response without data, carrying the text of
+// one of the needed failures; otherwise the data of the reference evaluator.
+func checkHTTP(hr gqlgen.HTTPResult, fs []gqlgen.RefFailure, failing bool, refJSON interface{}, fail func(sig, detail string)) {
+	if hr.TimedOut {
+		fail("http-no-response", "the HTTP handler did not return")
+		return
+	}
+	if !failing {
+		if len(hr.Errors) != 0 || !reflect.DeepEqual(hr.Data, refJSON) {
+			fail("http-result-differs", fmt.Sprintf("body %s\nwant data %s", hr.Body, js(refJSON)))
+		}
+		return
+	}
+	if len(hr.Errors) == 0 || hr.Data != nil {
+		fail("http-failure-not-reported", fmt.Sprintf("status %d body %q; needed failures %s", hr.Status, hr.Body, js(fs)))
+		return
+	}
+	for _, f := range fs {
+		want := gqlgen.FailText(f.Kind, f.Msg)
+		if f.Kind == "custom" {
+			want = "detail of " + f.Msg
+		}
+		if strings.Contains(hr.Errors[0], want) {
+			return
+		}
+	}
+	fail("http-error-not-from-a-needed-failing-field", fmt.Sprintf("errors %s; needed failures %s", js(hr.Errors), js(fs)))
 }
 
 func coqWS(ws gqlgen.WSResult) string {
